@@ -1,6 +1,6 @@
 """C09 Wire format: decoder/encoder/len agree with the PROTOCOL.md layout table."""
 import json
-from an import (Tracer, Explorer, STOP, guard_at, strip, strip_casts, walk, fmt, callee, const_eval,
+from an import (inexact_steps, Tracer, Explorer, STOP, guard_at, strip, strip_casts, walk, fmt, callee, const_eval,
                 field_reads, leaves, N)
 from layout import consume_paths, s4_check, emit_paths, lin, lin_str, _ladd
 from mir import loc_str
@@ -99,6 +99,13 @@ def roles_on_path(facts, body, tr, path):
                                 break
                 if src is not None:
                     roles.setdefault(src, f)
+                    if src[0] == "get" and sn.kind != "agg":
+                        gname = [x[6] for x in walk(n) if x.kind == "call" and x[6].startswith("get_")][0]
+                        m_ = re.match(r"get_[ui](\d+)", gname)
+                        steps = inexact_steps(n, lambda y: y.kind == "call" and y[6].startswith("get_"), int(m_.group(1)) if m_ else None,
+                                              extra_calls=("map_err",))
+                        if steps:
+                            roles.setdefault(("inexact", f), steps[0])
         t = body.term(bi)
         c = callee(t)
         if c and c["name"] == "try_from" and "OpCode" in c["path"] and t["args"]:
@@ -159,6 +166,11 @@ def check_decoder(facts, rep, crate):
             lay = decoded_layout(p, roles)
             got = [(k, w, r) for k, w, r, _, _ in lay]
             want = HEADER + TABLE[op]
+            inex = [(k[1], v) for k, v in roles.items() if k[0] == "inexact"]
+            if inex:
+                rep.bad("C09.R1", "arm/%s/value" % op, where,
+                        "the decoded field `%s` of a %s frame is not the integer that was read but computed from it (%s): decode is no longer the "
+                        "inverse of encode for some values" % (inex[0][0], op, inex[0][1]))
             if got == want and all(e in (None, "be") for _, _, _, e, _ in lay):
                 rep.ok("C09.R1", "arm/%s" % op, where, "layout %s" % (got,))
             else:
@@ -319,7 +331,15 @@ def check_encoder(facts, rep, crate):
                 for e in p["events"]:
                     if e[0] == "put":
                         t = b.term(e[3])
-                        lay.append(("int", e[1], enc_role(tr, t, e), e[2]))
+                        role_ = enc_role(tr, t, e)
+                        lay.append(("int", e[1], role_, e[2]))
+                        if role_ != "opcode" and not role_.startswith("len:"):
+                            steps = inexact_steps(tr.operand(t["args"][1]),
+                                                  lambda y: y.kind == "field" and y[3] and str(y[3]).startswith("penguin_mux::frame::"), e[1] * 8)
+                            if steps:
+                                rep.bad("C09.R3", "variant/%s/value/%s" % (op, role_), "%s (%s)" % (loc_str(t["loc"]), b.path),
+                                        "the %s field of a %s frame is not written as it is but computed (%s): for some values the bytes on the "
+                                        "wire are not the field's value" % (role_, op, steps[0]))
                     elif e[0] == "extend":
                         t = b.term(e[1])
                         lay.append(("bytes", None, enc_role(tr, t, e), None))
